@@ -99,7 +99,7 @@ impl Prop for C07 {
 fn base_program(choices: &[u32], noncore: bool) -> progs::Program { progs::build(choices, Opts { allow_mutation: true, allow_noncore: noncore, max_stmts: 10, trailing_other: false }) }
 
 /// bytes the real compiler emits for the program (None: the program does not compile — e.g. tuples — or is rejected)
-fn base_bytes(choices: &[u32], noncore: bool) -> Option<Vec<u8>> {
+pub fn base_bytes(choices: &[u32], noncore: bool) -> Option<Vec<u8>> {
   let p = base_program(choices, noncore);
   if p.features.iter().any(|f| f == "tuple") { return None; } // compile() hangs on tuples (C06 finding)
   match compile_program(&p.source()) { Stage::Bytes(b, _, _) => Some(b), _ => None }
